@@ -142,10 +142,19 @@ def bath_modes(chk, n):
             pt = quiet(oqupy.pt_tempo_compute, bath, 0.0, nst * dt + 1e-9, parameters=par, progress_type="silent")
             rho0 = np.diag([1.0, 0.0]) if up else np.diag([0.0, 1.0])
             tb = TwoTimeBathCorrelations(sysm, bath, pt, initial_state=rho0.astype(complex))
-            tl, occ = quiet(tb.occupation, w0, progress_type="silent")
+            # options: band width (g^2 = J dw for the occupation, g = dw sqrt(J) for each operator of a correlation),
+            # change_only (without the initial thermal part), interaction_picture (without the free phases)
+            dwo = rng.choice([1.0, 0.5, 2.0])
+            ch_o = rng.random() < 0.5
+            tl, occ = quiet(tb.occupation, w0, dw=dwo, change_only=ch_o, progress_type="silent")
             g0, g1 = corr.spectral_density(w0) ** 0.5, corr.spectral_density(w1) ** 0.5
-            want = exact_occupation(np.array(tl), w0, g0, T)
+            want = exact_occupation(np.array(tl), w0, g0 * dwo ** 0.5, T if not ch_o else 0.0)
             bad = not np.allclose(occ, want, rtol=1e-4, atol=1e-6)
+            if bad:
+                info["first_bad"] = {"occupation": True, "dw": dwo, "change_only": ch_o}
+            dws = rng.choice([(1.0, 1.0), (0.5, 2.0), (2.0, 1.0)])
+            ch_c, ip_c = rng.random() < 0.4, rng.random() < 0.4
+            info["options"] = {"dw": dws, "change_only": ch_c, "interaction_picture": ip_c}
             sel = len(tl) // 2
             w_other = w1 if w1 != w0 else 3.0
             g_other = corr.spectral_density(w_other) ** 0.5
@@ -155,8 +164,18 @@ def bath_modes(chk, n):
             for (wa, ga, wb, gb) in pairs:
                 for (ta, tb_) in tpairs:
                     for dagg in ((0, 0), (0, 1), (1, 0), (1, 1)):
-                        got = quiet(tb.correlation, wa, ta, wb, tb_, dagg=dagg, progress_type="silent")
-                        ex = exact_correlation(ta, tb_, wa, wb, dagg, ga, gb, T)
+                        got = quiet(tb.correlation, wa, ta, wb, tb_, dagg=dagg, dw=dws, change_only=ch_c, interaction_picture=ip_c,
+                                    progress_type="silent")
+                        ex = exact_correlation(ta, tb_, wa, wb, dagg, ga * dws[0], gb * dws[1], T)
+                        if ch_c or ip_c:
+                            ph = np.exp(1j * (2 * dagg[1] - 1) * wa * ta) * np.exp(1j * (2 * dagg[0] - 1) * wb * tb_)
+                            free = 0.0
+                            if wa == wb and dagg in ((0, 1), (1, 0)):
+                                free = ((np.exp(wa / T) - 1) ** (-1) if T > 0 else 0.0) + (1 if dagg == (0, 1) else 0)
+                            if ch_c:
+                                ex = ex - free * ph
+                            if ip_c:
+                                ex = ex / ph
                         if not np.allclose(got, ex, rtol=1e-4, atol=1e-6):
                             bad = True
                             info["first_bad"] = {"freq": [wa, wb], "times": [float(ta), float(tb_)], "dagg": list(dagg), "got": complex(got), "exact": complex(ex)}
